@@ -135,8 +135,9 @@ fn run_history(set: usize, hist: &[usize]) -> Res {
                 reused.app_memory.push(minidump_writer::app_memory::AppMemory { ptr: 0x10, length: 64 });
                 let mut sink = std::io::Cursor::new(Vec::new());
                 let r = dump_with(&mut reused, &mut sink);
-                reused.app_memory.pop();
-                reused.app_memory.remove(0);
+                // the caller takes back exactly the two regions it added (whatever the failed request left of the list)
+                let own = b.pattern_addrs[0] as usize + 2000;
+                reused.app_memory.retain(|a| !(a.ptr == 0x10 && a.length == 64) && !(a.ptr == own && a.length == 777));
                 dumps += 1;
                 if matches!(r, DumpResult::Ok(_)) {
                     return Res { case, fails, dumps, outcome: 9, machinery: Some("the dump with an unreadable app region did not fail".into()) };
